@@ -14,6 +14,7 @@ import (
 	"errors"
 	"fmt"
 	"io"
+	"log/slog"
 	"math/rand"
 	"net"
 	"os"
@@ -51,6 +52,7 @@ func (p *memPipe) signal() { // p.mu held
 type memConn struct {
 	in, out       *memPipe
 	local, remote net.Addr
+	wrote         func(n int) // bytes a Write really accepted
 }
 
 func memPair(a, b net.Addr) (*memConn, *memConn) {
@@ -108,6 +110,9 @@ func (c *memConn) Write(b []byte) (int, error) {
 	}
 	p.buf = append(p.buf, b...)
 	p.signal()
+	if c.wrote != nil {
+		c.wrote(len(b))
+	}
 	return len(b), nil
 }
 
@@ -193,6 +198,7 @@ func (d *vtDialer) DialStream(ctx context.Context, addr string) (transport.Strea
 		return nil, &net.OpError{Op: "dial", Net: "tcp", Err: syscall.ECONNREFUSED}
 	}
 	px, tg := memPair(&net.TCPAddr{IP: net.IPv4(127, 0, 0, 1), Port: 40000}, &net.TCPAddr{IP: net.IPv4(192, 0, 2, 9), Port: 443})
+	px.wrote = func(n int) { d.b.update(c, func(o *connObs) { o.wirePT += int64(n) }) }
 	d.b.mu.Lock()
 	*d.tsrv = tg
 	d.b.mu.Unlock()
@@ -213,7 +219,11 @@ func runVT(idx int, beh behaviour, seed int64) *caseRec {
 		rcap = 50
 	}
 	rc := service.NewReplayCache(rcap)
-	auth := service.NewShadowsocksStreamAuthenticator(ciphers, &rc, nil, nil)
+	var logger *slog.Logger
+	if idx%3 == 2 {
+		logger = debugLogger() // the server's -verbose
+	}
+	auth := service.NewShadowsocksStreamAuthenticator(ciphers, &rc, nil, logger)
 	b := newBoard()
 	sc := beh.Sc[0]
 	var kinds []kv
@@ -243,6 +253,7 @@ func runVT(idx int, beh behaviour, seed int64) *caseRec {
 	cc.plan.KeyPos = pos
 	var tsrv *memConn
 	handler := service.NewStreamHandler(auth, vtTimeout)
+	handler.SetLogger(logger)
 	handler.SetTargetDialer(&vtDialer{b: b, cc: cc, tsrv: &tsrv})
 
 	// how a connection is handed to the code: directly to the StreamHandler (with the harness' metrics object), or - when
@@ -259,7 +270,7 @@ func runVT(idx int, beh behaviour, seed int64) *caseRec {
 	viaService := os.Getenv("TCPVT_SERVICE") == "1" && ntgt == 0 && sc.Hs != "valid"
 	if viaService {
 		svc, err := service.NewShadowsocksService(service.WithCiphers(ciphers), service.WithReplayCache(&rc),
-			service.WithMetrics(&recServiceMetrics{b: b, c: func(net.Conn) int { return 1 }}))
+			service.WithMetrics(&recServiceMetrics{b: b, c: func(net.Conn) int { return 1 }}), service.WithLogger(logger))
 		if err != nil {
 			panic(err)
 		}
@@ -410,6 +421,7 @@ func runVT(idx int, beh behaviour, seed int64) *caseRec {
 			var srv *memConn
 			cli, srv = memPair(&net.TCPAddr{IP: net.IPv4(127, 0, 0, 1), Port: 50000 + idx%10000}, &net.TCPAddr{IP: net.IPv4(127, 0, 0, 1), Port: 9000})
 			r.Connected = true
+			srv.wrote = func(n int) { b.update(1, func(o *connObs) { o.wirePC += int64(n) }) }
 			wg.Add(2)
 			go func() {
 				defer wg.Done()
@@ -595,6 +607,8 @@ func runVT(idx int, beh behaviour, seed int64) *caseRec {
 	r.StallKinds = append([]string{}, cc.stallKinds...)
 	r.TfinPolite = cc.tfinPolite
 	r.WCS, r.WTR, r.WTS, r.WCR = o.wireCS, o.wireTR, o.wireTS, o.wireCR
+	r.WPT, r.WPC = o.wirePT, o.wirePC
+	r.DebugLog = logger != nil
 	for _, m := range o.mlog {
 		if m.M == "Probe" {
 			r.Drain = m.Drain
